@@ -741,7 +741,9 @@ def resolveAll : Nat → St → Except Err St
       | .error e => .error e
       | .ok s => resolveAll fuel s
 
-def worklistFuel : Nat := 200
+/-- fuel of the two house worklists: an artefact of the model (the Python loops are unbounded; with D5 repaired a
+  lineage loop is a ResolveError, so every worklist empties); large enough for every script the harness generates -/
+def worklistFuel : Nat := 20000
 
 /-- `House.resolve` -/
 def resolveHouse (s : St) (h : String) : Except Err St :=
